@@ -3,6 +3,7 @@ REGISTRY = {
     "C02": "c02_evidence",
     "C04": "c04_store",
     "C10": "c10_batch",
+    "C11": "c11_crash",
     "C16": "c16_resampling",
     "C17": "c17_threshold",
 }
